@@ -17,7 +17,10 @@ TOKENS = ["a", "PUSH", "PUSH_LITERAL", "PEEK", "PEEK_ALL", "POP", "POP_ALL", "DR
 HEADER_TOKENS = ["a", "=", "_", "@", "$", "!", "{", "}", '"s"', "///d\n", "//!d\n", "b"]
 FILLERS = ["", " ", "\n", "/*c*/", "//c\n"]
 
-BOUNDS = {"quick": {"K": 3, "H": 4, "layout_k": 2}, "thorough": {"K": 4, "H": 5, "layout_k": 3}}
+BOUNDS = {"quick": {"K": 3, "H": 4, "layout_k": 2, "comment_len": 8, "site_k": 4}, "thorough": {"K": 4, "H": 5, "layout_k": 3, "comment_len": 11, "site_k": 5}}
+COMMENT_SIGMA = "/*x"
+SITE_TOKENS = ["a", "|", "~", "!", "?"]
+SITES = [("", ""), ("(", ")"), ("PUSH(", ")"), ("a ~ (", ")"), ("((", "))"), ("PUSH((", "))"), ("(PUSH(", "))")]
 
 EXTRA_TEXTS = [
     # escapes, numbers, slices, tags, keyword prefixes, docs: deeper valid/invalid forms with a known structure
@@ -291,6 +294,18 @@ def run(tier: str) -> int:
             esc.append('r = { PUSH_LITERAL("\\x' + b_ + '") }')
     for i in range(0, len(esc), 700):
         payloads.append(("texts", esc[i:i + 700], "escape-bodies"))
+    # comment shapes: every string over {/,*,x} before the first rule and inside a rule body (nested, overlapping and unclosed delimiters)
+    cms = ["".join(t) for k in range(0, b["comment_len"] + 1) for t in itertools.product(COMMENT_SIGMA, repeat=k)]
+    ctexts = [c + 'a={"x"}' for c in cms] + ['a={"x"' + c + "}" for c in cms]
+    if tier == "thorough":
+        ctexts += ["a={b" + c + "\n}" for c in cms if len(c) <= 8]
+    for i in range(0, len(ctexts), 400):
+        payloads.append(("texts", ctexts[i:i + 400], "comment-shapes"))
+    # every place a whole expression may stand (rule body, group, PUSH argument, nested): every short token sequence there
+    seqs = [" ".join(t) for k in range(0, b["site_k"] + 1) for t in itertools.product(SITE_TOKENS, repeat=k)]
+    stexts = [f"r = {{ {o} {q} {c} }}" for o, c in SITES for q in seqs]
+    for i in range(0, len(stexts), 400):
+        payloads.append(("texts", stexts[i:i + 400], "expression-sites"))
     files = sorted(glob.glob(os.path.join(common.REPO, "tests", "grammars", "*.pest")) + glob.glob(os.path.join(common.REPO, "examples", "*", "*.pest")))
     for f in files:
         payloads.append(("texts", [open(f, encoding="utf-8").read()], f"bundled({os.path.relpath(f, common.REPO)})"))
@@ -335,7 +350,9 @@ def run(tier: str) -> int:
         "rule": f"(a) every rule body r = {{ t1 ... tk }} over a {len(TOKENS)}-token alphabet (identifiers, every stack keyword, a keyword-prefixed identifier, string/insensitive/char literals, '..', all brackets, numbers, all operators, one- and two-letter tags) joined by single spaces, k <= K; "
                 f"(b) every rule header / top-level token sequence over {len(HEADER_TOKENS)} tokens (names, '=', the four modifiers, braces, ///, //! docs), k <= H; "
                 "(c) layout: for every accepted body with k <= layout_k tokens, each inter-token gap in turn - and all gaps at once - set to '', newline, a block comment, a line comment; "
-                "(d) every PEEK slice and every repetition bound over ten spellings of the bounds (zero, leading zeros, negative zero, signs), every \\x / \\u{} escape body of up to three characters over a 15-character set in string, insensitive-string, character and PUSH_LITERAL literals, and ~250 hand-picked texts (escape forms, repetition bounds, PEEK slices, tags, keyword prefixes, prefix/postfix chains, docs, comments, line endings); (e) the bundled .pest files. "
+                "(d) every PEEK slice and every repetition bound over ten spellings of the bounds (zero, leading zeros, negative zero, signs), every \\x / \\u{} escape body of up to three characters over a 15-character set in string, insensitive-string, character and PUSH_LITERAL literals, and ~250 hand-picked texts (escape forms, repetition bounds, PEEK slices, tags, keyword prefixes, prefix/postfix chains, docs, comments, line endings); (e) the bundled .pest files; "
+                f"(f) comment shapes: every string of up to {b['comment_len']} characters over {{/,*,x}} placed before the first rule and inside a rule body; (g) expression sites: every sequence of up to {b['site_k']} tokens over {SITE_TOKENS} "
+                "inside a rule body, a group, a PUSH argument and nestings of those. "
                 "Oracle: from_grammar(text, optimizer=None) returns a Parser iff the meta-grammar, executed by the reference model, accepts the text; if both accept, rule names, modifiers, rule and grammar docs and the expression structure "
                 "(modulo ~/| associativity, Group nodes and tag position inside a term) equal the structure read off the meta-grammar's parse tree. states = texts judged; a text is non-trivial when the meta-grammar accepts it",
         "samples": [{"text": t} for t in common.pick_samples(EXTRA_TEXTS, 5)],
